@@ -21,7 +21,7 @@ from c10 import (IMPORTS as IMPORTS0, DICT_IMPORTS, coq_codes, corr_term, dict_d
                  job_replay_info, make_jobs, run_jobs)
 
 IMPORTS = IMPORTS0 + "\nFrom XV Require Import Proofs.ParserDoc."
-EXTRAS_C15 = ["wildknown", "wrappers", "required", "wildtail", "anytype", "noinitwild", "fixed", "textattr", "union"]
+EXTRAS_C15 = ["poly", "wildknown", "wrappers", "required", "wildtail", "anytype", "noinitwild", "fixed", "textattr", "union"]
 DOCUMENTED = ("ParserError", "ConverterError", "XmlContextError", "XmlHandlerError")
 
 SITE_CLASS = {
@@ -154,7 +154,7 @@ def run(ck: Check):
         elif o["kind"] == "ok" and not d["wf"]:
             ck.failure("json-accepts-illformed", f"JsonParser accepts ill-formed JSON ({d['what']})", rp)
         elif o["kind"] == "err" and o["exc"] not in DOCUMENTED:
-            cls = ("json-misfit-" if d["wf"] else "json-illformed-") + str(o["exc"])
+            cls = ("json-deep-" if d["fault"] == "deep" else "json-misfit-" if d["wf"] else "json-illformed-") + str(o["exc"])
             ck.failure(cls, f"JsonParser raised {o['exc']} at {d.get('where')}: {o['msg']} ({d['what']})", rp)
 
     for j in res["jobs"]:
